@@ -147,6 +147,10 @@ uint32_t Ruleset::runOnce(OomdContext& context) {
   auto visited = std::unordered_set<std::string>();
   uint32_t ret = 0;
   for (const auto& cgroup : cgroup_.value()->resolveWildcard()) {
+    if (visited.contains(cgroup.absolutePath())) {
+      // glob may list a cgroup more than once (e.g. brace alternatives)
+      continue;
+    }
     auto cgroupfd = Fs::DirFd::open(cgroup.absolutePath());
     if (!cgroupfd) {
       continue;
